@@ -197,6 +197,9 @@ func (ctrler *GovCtrler) ValidateTrx(ctx *ctrlertypes.TrxContext) xerrors.XError
 				if err := json.Unmarshal(option, checkGovParams); err != nil {
 					return xerrors.ErrInvalidTrxPayloadParams.Wrap(err)
 				}
+				if checkGovParams.HasNegative() {
+					return xerrors.ErrInvalidTrxPayloadParams.Wrap(errors.New("wrong options: negative value"))
+				}
 			}
 		}
 		endVotingHeight := txpayload.StartVotingHeight + txpayload.VotingPeriodBlocks
